@@ -529,7 +529,7 @@ def check(run):
     jobs = [('web', run.seed * 1000 + i, 250 if quick else 4000) for i in range(8)]
     jobs += [('ws', run.seed * 1000 + 50 + i, 250 if quick else 4000) for i in range(8)]
     run.absorb(core.pool_map('vk.c20_web', 'shard', jobs))
-    run.min_class_fraction = {'web': 0.2, 'ws': 0.2}
+    run.min_class_fraction = {'web': 0.1, 'ws': 0.1}
 
 
 def replay(case):
